@@ -106,16 +106,64 @@ def ctf_ancestors(g, v):
     return out
 
 
+def cond_in_ancestral_set(g, cond, root):
+    """X_*(W_t) = V(||X_*|| ∩ An(W_t)): the vertices of the minimised conditioned variables that are members of An(W_t)"""
+    mcond = {vkey(minimise(g, x)) for x in cond}
+    an_w = {vkey(a) for a in ctf_ancestors(g, root)}
+    return {k[0] for k in mcond if k in an_w}
+
+
+def ancestral_set_after(g, cond, root):
+    """An(W_t) in G with the edges out of X_*(W_t) removed"""
+    xw = cond_in_ancestral_set(g, cond, root)
+    g2 = {"nodes": all_nodes(g), "di": [e for e in g["di"] if e[0] not in xw], "bi": g["bi"]}
+    return ctf_ancestors(g2, root)
+
+
 def ancestral_components(g, cond, roots):
     """Def. 4.2; returns a list of lists of variables"""
-    mcond = {vkey(minimise(g, x)): minimise(g, x) for x in cond}
-    sets = []
-    for w in roots:
-        an_w = {vkey(a) for a in ctf_ancestors(g, w)}
-        xw = {k[0] for k in mcond if k in an_w}
-        g2 = {"nodes": all_nodes(g), "di": [e for e in g["di"] if e[0] not in xw], "bi": g["bi"]}
-        sets.append(ctf_ancestors(g2, w))
-    return components_from_sets(g, sets)
+    return components_from_sets(g, [ancestral_set_after(g, cond, w) for w in roots])
+
+
+def _partition(sets, linked):
+    """finest partition of the input sets closed under `linked(i, j)`; returns the unions"""
+    n = len(sets)
+    par = list(range(n))
+
+    def find(i):
+        while par[i] != i:
+            par[i] = par[par[i]]
+            i = par[i]
+        return i
+
+    for i in range(n):
+        for j in range(i + 1, n):
+            if linked(i, j):
+                par[find(i)] = find(j)
+    comps = {}
+    for i in range(n):
+        comps.setdefault(find(i), {}).update({vkey(v): v for v in sets[i]})
+    return [list(c.values()) for c in comps.values()]
+
+
+def merge_common(sets):
+    """first pass of Def. 4.2: sets that share a graph vertex end up together; an empty set is dropped"""
+    sets = [list(s) for s in sets if s]
+    bases = [{name(v) for v in s} for s in sets]
+    return _partition(sets, lambda i, j: bool(bases[i] & bases[j]))
+
+
+def merge_bidirected(g, sets):
+    """second pass of Def. 4.2, for input sets that are pairwise disjoint on graph vertices: sets joined by a bidirected
+    edge between two of their vertices end up together (equal sets are one set)"""
+    uniq = {}
+    for s in sets:
+        uniq.setdefault(frozenset(vkey(v) for v in s), list(s))
+    sets = list(uniq.values())
+    bases = [{name(v) for v in s} for s in sets]
+    bi = [tuple(e) for e in g["bi"]]
+    return _partition(sets, lambda i, j: any(
+        (a in bases[i] and b in bases[j]) or (b in bases[i] and a in bases[j]) for a, b in bi))
 
 
 def components_from_sets(g, sets):
